@@ -244,7 +244,7 @@ static void checkCc(const unsigned char *text, const unsigned len, const bool al
     // ---- pack and parse again
     // one path per parsed numeric value: printing a symbolic number (64-bit division chain in the printf model) is what the solver
     // cannot afford; every value the symbolic digits can produce is still covered
-    if (!allValues) {   // the round trip is run for one-digit values, values from 2147483640 and absent (-1) only (c29_num thorough: every value)
+    if (!allValues) {   // the round trip is run for one-digit values, values from 2147483640 and absent (-1) only (c29_num_values: every value)
         const int32_t v[5] = { cc.max_age, cc.s_maxage, cc.max_stale, cc.min_fresh, cc.stale_if_error };
         bool small = true;
         for (int k = 0; k < 5; ++k) small = small & (v[k] < 10 || v[k] >= 2147483640);
@@ -286,8 +286,17 @@ extern "C" void c29_num(void)
     in[n++] = '=';
     for (unsigned k = 0; k < 2; ++k) in[n++] = vf_nondet_u8("b");
     in[n] = 0;
-    checkCc(in, n, T(false, true));
+    checkCc(in, n);
 }
+#ifdef VF_THOROUGH
+// pack -> parse for every two-digit value (the other families run the round trip for one-digit and boundary values only)
+extern "C" void c29_num_values(void)
+{
+    static const char t[] = "max-age=\x01\x01"; unsigned char in[sizeof(t)];
+    for (unsigned i = 0; i < sizeof(t); ++i) in[i] = t[i] == '\x01' ? vf_nondet_u8("b") : (unsigned char)t[i];
+    checkCc(in, sizeof(t) - 1, true);
+}
+#endif
 // values around 2^31, 2^32 and 2^63
 FAMILY(c29_num_31, "max-age=214748364\x01\x01")
 FAMILY(c29_num_32, "no-store, s-maxage=429496729\x01\x01")
